@@ -68,9 +68,11 @@ claim(
     "Partial (mechanism 1 and the equality part). Proved on the real color/mod.rs for ALL doubles (NaN and infinities included) / all bytes: both clamping constructors yield "
     "integer-rounded red/green/blue in [0,255] and alpha in [0,1]; named-color construction; change-alpha/opacify/transparentize clamp and leave rgb untouched; whiteness/blackness in [0,1] "
     "with sum <= 1; invert with weight 0 is the identity; a color written as bytes equals the same color built by rgba() in both orders, differing channels/alpha are unequal. "
-    "NOT covered (CBMC cannot finish symbolic multiply/fma chains): rgb<->hsl/hwb round trips, lighten/darken/saturate/adjust-hue/complement, mix, hex parsing, the named table, compressed spelling.",
+    "Verus (unbounded): the hex-literal scanner parse_hex_color_contents consumes exactly 3, 4, 6 or 8 hex digits, never overflows, never underflows `start - 1`, and every channel it hands to the constructor is a byte "
+    "(relative to the assumed contract of parse_hex_digit). "
+    "NOT covered (CBMC cannot finish symbolic multiply/fma chains): rgb<->hsl/hwb round trips, lighten/darken/saturate/adjust-hue/complement, mix, is_hex_color/parse_hash, the named table, compressed spelling.",
     K_TRUST,
-    "Kani loop-free harnesses over the full f64 / u8 domain",
+    "Kani loop-free harnesses over the full f64 / u8 domain + Verus contract on the hex-literal scanner",
     "DESIGN.md 5/C15",
 )
 claim(
